@@ -56,7 +56,7 @@ pub enum Case {
 }
 
 const PIECES: &[&str] = &[
-  "a", "\"", "\\", "\n", "\t", "\r", "\u{0}", "\u{1}", "\u{1f}", "\u{7f}", "\u{2028}", "\u{2029}", "é", "日", "😀", "\u{10ffff}", "/", "</script>", "\u{8}", "\u{c}", " ", "x.js", "\u{feff}", "\\u0041", "'",
+  "a", "\"", "\\", "\n", "\t", "\r", "\u{0}", "\u{1}", "\u{1f}", "\u{7f}", "\u{2028}", "\u{2029}", "é", "日", "😀", "\u{10ffff}", "/", "</script>", "\u{8}", "\u{c}", " ", "x.js", "\u{feff}", "\\u0041", "'", "./", "../", "src/", "webpack:///", "//", ".",
 ];
 
 fn wild_string() -> BoxedStrategy<String> {
